@@ -48,7 +48,10 @@ func c29Concurrent(r *kit.Run, goroutines, steps int) {
 				if tr, ok := v.(*actions.Transfer); ok && len(tr.Memo) > actions.MaxMemoSize {
 					tr.Memo = tr.Memo[:actions.MaxMemoSize]
 				}
-				native, err := c29Native(v)
+				native, err, nok := c29NativeGuarded(r, p, v, goroutines)
+				if !nok {
+					continue
+				}
 				if err != nil {
 					tl.refused++ // no native encoding to compare with
 					continue
